@@ -52,6 +52,7 @@ PROPS["C11"] = dict(
 )
 
 ORSWOT_PROFILES = [
+    dict(name="orswot_overtake", quick=500, thorough=10000),
     dict(name="orswot_fifo", quick=1500, thorough=30000),
     dict(name="orswot_causal", quick=700, thorough=15000),
     dict(name="orswot_fifo_ops", quick=500, thorough=10000),
@@ -307,7 +308,7 @@ MANIFEST_TEXT["C15"] = dict(
 # --------------------------------------------------------------------------------------------
 # C05 and the Map (key-level) parts of the generic properties
 # --------------------------------------------------------------------------------------------
-MAP_PROFILES = [dict(name="map_corr", quick=900, thorough=20000)]
+MAP_PROFILES = [dict(name="map_corr", quick=900, thorough=20000), dict(name="map_scenario", quick=900, thorough=20000)]
 MAP_KEY_FIELDS = ["gk0", "gk1", "gk2", "keys", "len", "isempty"]
 
 PROPS["C05"] = dict(
@@ -329,6 +330,9 @@ MANIFEST_TEXT["C05"] = dict(
          "update witnesses; pending key removes characterised and preserved by merge; key-level convergence. Obtained by proving that Map's key level simulates Orswot. Nested contents: one-step reset semantics proved; the "
          "global nested claim is false on the pinned tree and recorded as known findings with replayed witnesses.",
     note=NOTE, technique="Lean 4 proof (simulation of Orswot by Map's key level + Orswot representation theorem) + differential correspondence check", design_ref="DESIGN.md §7 C05")
+
+for _pid in ("C02", "C03", "C07", "C08", "C09", "C20"):
+    PROPS[_pid]["profiles"] = [dict(name="orswot_overtake", quick=500, thorough=10000)] + PROPS[_pid]["profiles"]
 
 for _pid in ("C01", "C02", "C03", "C07", "C08", "C09", "C20"):
     PROPS[_pid]["lean_targets"] = PROPS[_pid]["lean_targets"] + ["CrdtModel.Props.C05"]
